@@ -248,18 +248,23 @@ def h_concat(params, vals, ctx):
             chunk = b"\x01\x02"
             want = b"\x01\x02"
         elif kind == "sized":
-            chunk = SizedDeferred(bytes, 2, late("k", b"\x03\x04"))
+            chunk = SizedDeferred[bytes](2, late("k", b"\x03\x04"))  # the way the compiler builds it: an early attempt, then pending
             want = b"\x03\x04"
         elif kind == "deferred1":
-            chunk = Deferred(bytes, late("k", b"\x05" * n1))
+            chunk = Deferred[bytes](late("k", b"\x05" * n1))
             want = b"\x05" * n1
         elif kind == "deferred2":
-            chunk = Deferred(bytes, late("k", b"\x06" * n2))
+            chunk = Deferred[bytes](late("k", b"\x06" * n2))
             want = b"\x06" * n2
         elif kind == "nested":
             inner = SizedDeferred(bytes, 1, late("k", b"\x07")) + Deferred(bytes, late("k", b"\x08" * n1)) + b"\x09"
             chunk = Deferred(bytes, (lambda inner=inner: inner))
             want = b"\x07" + b"\x08" * n1 + b"\x09"
+        elif kind == "wrapper0":
+            # what '.include' does: declared size 0, computed at once to another (still pending) chunk which then stands for it
+            inner = Deferred[bytes](late("k", b"\x0a" * n2 + b"\x0b"))
+            chunk = SizedDeferred[bytes](0, (lambda inner=inner: inner))
+            want = b"\x0a" * n2 + b"\x0b"
         else:  # empty
             chunk = b""
             want = b""
@@ -314,6 +319,7 @@ def _ob(tag, files_kinds, **kw):
 CONCAT_SHAPES = [
     ["bytes", "sized", "deferred1"], ["deferred1", "deferred2", "bytes"], ["sized", "nested", "sized"], ["nested", "nested"], ["empty", "deferred1", "empty", "bytes"],
     ["deferred1"], ["bytes", "bytes", "deferred2", "sized", "nested", "deferred1"], ["sized", "sized", "sized"], ["nested", "empty", "deferred2"],
+    ["wrapper0", "bytes"], ["bytes", "wrapper0", "sized", "wrapper0"], ["wrapper0"],
 ]
 
 
